@@ -615,7 +615,7 @@ Lemma ins_not_nil x l : ins x l <> [].
 Proof. intros H. assert (Hx : In x (ins x l)) by (apply in_ins; auto). rewrite H in Hx. destruct Hx. Qed.
 
 Section Markup.
-(* X: the parsed program contains no `jal x0, __return__` of its own *)
+(* X: the parsed program contains no `jal x0, <return>` of its own *)
 Variable X : Prop.
 
 Record MI (G : cfg) : Prop := {
@@ -1194,12 +1194,12 @@ Proof.
     + intros x c' Hc'. destruct (proj2 HP x c' Hc') as [c [Hc _]]. eauto.
 Qed.
 
-(* NOTE the guard of the third conjunct: a `jal x0, __return__` written in the program is a
-   merge jump syntactically, and its successor is wherever the label `__return__` is.
+(* NOTE the guard of the third conjunct: a `jal x0, <return>` written in the program is a
+   merge jump syntactically, and its successor is wherever the label `<return>` is.
    Counterexample to the unguarded conjunct (picks = [], no sharing):
      main: jal f / li a7,10 / ecall
-     f: beqz a0,z / j __return__ / z: ret / __return__: addi a0,a0,1 / j z
-   node 6 (`j __return__`) is in fnodes, is a merge jump, nexts = [8], fexit = 7. *)
+     f: beqz a0,z / j <return> / z: ret / <return>: addi a0,a0,1 / j z
+   node 6 (`j <return>`) is in fnodes, is a merge jump, nexts = [8], fexit = 7. *)
 Theorem fn_exit_strong :
   forall picks ns g, gen_full_cfg picks ns = Ok (SOk g) ->
     forall fid f, nth_opt (gfuncs g) fid = Some f ->
